@@ -37,6 +37,9 @@ Clause(e) ==
          LET S == SubsidyOfEra(IF Len(Strip(DivSmall(e.h, Interval))) > 3 THEN 64 ELSE EraOfHeight(e.h))
          IN IF e.accepted /\ e.v > S THEN "C16:validator_accepts_a_reward_above_the_subsidy_of_that_height"
             ELSE IF ~e.accepted /\ e.v <= S THEN "C16:validator_rejects_the_documented_subsidy_of_that_height" ELSE ""
+    [] e.k = "enforce_wire" ->  \* a block as bytes on the wire whose reward outputs add up (as the 64-bit amounts the format defines) to more than any
+                                \* subsidy, decoded by the node and put to its reward rule
+         IF e.accepted THEN "C16:validator_accepts_a_reward_above_the_subsidy_of_that_height" ELSE ""
     [] e.k = "mint" ->     \* the reward the node's own block assembly claims at height h without fees
          LET S == SubsidyOfEra(IF Len(Strip(DivSmall(e.h, Interval))) > 3 THEN 64 ELSE EraOfHeight(e.h))
          IN IF e.v # S THEN "C16:assembled_reward_differs_from_the_subsidy_of_that_height" ELSE ""
